@@ -97,6 +97,13 @@ func (s *c09Store) close() {
 	s.eng = nil
 }
 
+// configure applies a plan's commit coordinator settings to a live store.
+func (s *c09Store) configure(p *c09Plan) {
+	if s != nil && s.eng != nil && p.coord != nil {
+		s.eng.ConfigureCommitCoordinator(*p.coord)
+	}
+}
+
 func c09ErrClass(err error) string {
 	switch {
 	case err == nil:
